@@ -7,8 +7,10 @@ import BadgerModel.Spec.Mvcc
 implementation reports), `Open` rebuilds the in-memory state from the tables:
 * level 0 is sorted by file id (`levelHandler.initTables`), levels `≥ 1` by smallest key (they
   already are);
-* `nextTxnTs = MaxVersion() + 1` where `MaxVersion` is the largest version in any table or memtable,
-  end-of-transaction markers included (`markerTs`);
+* `nextTxnTs = MaxVersion() + 1` where `MaxVersion` is the largest version in any table or memtable
+  (the end-of-transaction markers are written to the WAL only, `memTable.Put` keeps them out of the
+  skiplist, so they do not count: after a compaction has dropped the newest versions the timestamps
+  handed out after a reopen may repeat earlier ones);
 * both watermarks are set to `MaxVersion()` (`txnMark.Done`, `readMark.Done`);
 * the managed-mode discard timestamp, `committedTxns` and all transactions are gone.
 -/
@@ -21,7 +23,7 @@ def insertById (t : Tbl) : List Tbl → List Tbl
 def sortTblsById (ts : List Tbl) : List Tbl := ts.foldr insertById []
 
 /-- `DB.MaxVersion()` -/
-def Db.maxVersion (d : Db) : Nat := d.lsm.allEntries.foldl (fun m e => max m e.ver) d.markerTs
+def Db.maxVersion (d : Db) : Nat := d.lsm.allEntries.foldl (fun m e => max m e.ver) 0
 
 def Db.closeOpen (d : Db) : Db :=
   let lsm : Lsm := match d.lsm.levels with
